@@ -79,6 +79,89 @@ func runC07(res *lib.Result, tier string, seed int64, args []string) error {
 			}
 			res.Dist("twin-files")
 		}
+		if pi%8 == 4 {
+			// provider file (Props/C07 wsUndefined_provider): a second file assigns half of the names this text reads and
+			// never assigns — alternately at top level and inside a function; in main.lua exactly the type-2 reports of
+			// those names disappear, every other report (2 of other names, 3, 4, 17) stays as it is for the text alone
+			written := map[string]bool{}
+			for _, o := range occs {
+				if o.kind == "W" && o.t == "G" {
+					written[o.name] = true
+				}
+			}
+			var names []string
+			seenN := map[string]bool{}
+			for _, o := range occs {
+				if o.kind == "U" && o.t == "G" && !written[o.name] && !c07Builtins[o.name] && !seenN[o.name] {
+					seenN[o.name] = true
+					names = append(names, o.name)
+				}
+			}
+			sort.Strings(names)
+			provided := map[string]bool{}
+			defs := "local unrelated = 0\n"
+			for i, n := range names {
+				if i%2 == 1 {
+					continue
+				}
+				provided[n] = true
+				if (i/2)%2 == 0 {
+					defs += n + " = 1\n"
+				} else {
+					defs += "local function set_" + n + "() " + n + " = unrelated end\nset_" + n + "()\n"
+				}
+			}
+			if len(provided) > 0 {
+				dir3 := lib.ScratchDir("c07pv")
+				if err := lib.WriteWorkspace(dir3, map[string]string{"main.lua": src, "zdefs.lua": defs}); err != nil {
+					return err
+				}
+				pv, err := lib.StartSession(dir3, lib.AllChecksOptions())
+				if err != nil {
+					os.RemoveAll(dir3)
+					return err
+				}
+				view := pv.DiagView()
+				pv.Close()
+				os.RemoveAll(dir3)
+				gotP := map[string]bool{}
+				for _, d := range view["main.lua"] {
+					if t := d.ErrType(); t == 2 || t == 3 || t == 4 || t == 17 {
+						gotP[fmt.Sprintf("t%d@%s", t, locOfRange(d.Range))] = true
+					}
+				}
+				wantP := map[string]bool{}
+				nameAt := map[string]string{}
+				for _, o := range occs {
+					if o.kind == "U" {
+						nameAt[occLoc(o)] = o.name
+					}
+				}
+				for k := range got {
+					if strings.HasPrefix(k, "t2@") && provided[nameAt[k[3:]]] {
+						continue
+					}
+					wantP[k] = true
+				}
+				var miss, extra []string
+				for k := range wantP {
+					if !gotP[k] {
+						miss = append(miss, k)
+					}
+				}
+				for k := range gotP {
+					if !wantP[k] {
+						extra = append(extra, k)
+					}
+				}
+				sort.Strings(miss)
+				sort.Strings(extra)
+				if len(miss) > 0 || len(extra) > 0 {
+					res.AddViolation("impl-vs-spec", fmt.Sprintf("with a second file zdefs.lua assigning the globals %v:\n%s-- main.lua must lose exactly the undefined-variable reports of those names; missing %v extra %v (relative to the text alone in a workspace)", keysOf(provided), defs, miss, extra), src, false)
+				}
+				res.Dist("provider-file")
+			}
+		}
 		// expectation from the binder (traversal binding = what the passes see)
 		reads := map[string]int{}
 		for _, o := range occs {
@@ -280,4 +363,13 @@ func libraryAlias(init string) bool {
 		}
 	}
 	return false
+}
+
+func keysOf(m map[string]bool) []string {
+	var out []string
+	for k := range m {
+		out = append(out, k)
+	}
+	sort.Strings(out)
+	return out
 }
